@@ -132,6 +132,11 @@ def sweep_case(case, rng, viol, counts, classes):
         sig = (sorted(((p[0][0], p[0][1] - t[0], p[0][2] - t[1], p[0][3] - t[2]), (p[1][0], p[1][1] - t[0], p[1][2] - t[1], p[1][3] - t[2]))
                       for p in map(lambda b: (tuple(b[0]), tuple(b[1])), conf["bonds"])),
                sorted((g["label"], g["type"], g["bridge"], g["titratable"]) for g in conf["groups"]))
+        ncys_bridged = sum(1 for g in conf["groups"] if g["rtype"] == "CYS" and g["bridge"])
+        if n < 2490 and ncys_bridged != 2:
+            viol.append({"cls": "pose-changes-bonds", "msg": "disulfide fragment of %s, S-S %.3f A along axis %d, offset %.2f A: %d of 2 cysteines are "
+                         "flagged as bridged" % (name, n / 1000.0, case["axis"], step / 100.0, ncys_bridged)})
+            break
         if ref is None:
             ref = sig
         elif sig != ref:
